@@ -26,6 +26,7 @@ def run(ctx):
                        "projection = all Iterate query modes x types x client restriction over the topic universe, "
                        "by-name, by-client, GetStats, GetClientStats, AlreadyExisted")
     ctx.assumptions += ["bounded alphabet: clients, filters (packs), topic universe depth, live subscriptions",
+                        "the redis-backed store is judged over the in-process RESP server (checked against RespCmds.tla in C10); its Total counters are not stored and are not compared after a restart",
                         "GetClientStats error for a never-subscribed client is read as zero counters"]
     names = sorted(PACKS)
     if ctx.tier == "quick":
@@ -41,6 +42,19 @@ def run(ctx):
             d["pack"] = name
             d["meta"] = meta
         alldivs += divs
+    # the redis-backed store (persistence/subscription/redis) over the in-process RESP server: same transitions, and after
+    # each one a restart (new store object + Init) must answer the same queries.  Client ids that start with characters of
+    # "sub:" (the key prefix) are part of the alphabet.
+    rplan = [(names[(ctx.seed + 1) % len(names)], 2)] if ctx.tier == "quick" else [(n, 2) for n in names] + [("shared", 3)]
+    for name, maxlive in rplan:
+        summary, divs, meta = substore_lib.run_pack(ctx, name + "_redis", ["sub1", "b:2"], PACKS[name], 2, maxlive, maxlive + 1, 2 if ctx.tier == "quick" else 3,
+                                                    target="redis", workers=4)
+        vlib.log("[C02] pack %-7s (redis target) transitions=%d divergences=%d" % (name, summary["n"], summary["divergences"]))
+        for d in divs:
+            d["pack"] = name + "/redis"
+            d["meta"] = meta
+            d["signature"] = "redis:" + d["signature"]
+        alldivs += divs
     seen = set()
     for d in alldivs:
         key = (d["signature"], d["pack"])
@@ -48,7 +62,7 @@ def run(ctx):
             continue
         seen.add(key)
         ctx.violation(d["what"], {"signature": d["signature"], "kind": "substore-transition", "pack": d["pack"],
-                                  "meta": d["meta"], "transition": d.get("line"), "target": "mem"})
+                                  "meta": d["meta"], "transition": d.get("line"), "target": "redis" if d["pack"].endswith("/redis") else "mem"})
     # exported TopicMatch helper: exhaustive over all strings up to length L over {a,b,/,+,#,$}
     maxlen = 4 if ctx.tier == "quick" else 5
     summary, divs = topicstr_lib.run(ctx, ["a", "b", "/", "+", "#", "$"], maxlen)
